@@ -108,10 +108,10 @@ ways the Go code shares the storage of large containers:
   plain copy `b = a`; a bare identifier passed as argument (the parameter joins its group, and the
   call's result may alias its arguments and what the body mentions); a container literal holding
   identifiers (`[a, a]`, `{"k": a}`: containment) and reading an element back (`c[0]`, `m.k`);
-  `rest(a)`, `a[i:j]`; the loop variable of `for e = a`; `x + y` on ARRAYS (append may reuse the left
+  `rest(a)`, `a[i:j]` of ARRAYS; the loop variable of `for e = a`; `x + y` on ARRAYS (append may reuse the left
   operand's spare capacity; elements are shared).
-FRESH (own storage): literals without identifiers, `*`, every other operator, and `+` with a MAP on the
-left (`Append` always builds a new map) — so `cp = big + {}` puts `cp` alone in a new group.
+FRESH (own storage): literals without identifiers, `*`, every other operator, `+` with a MAP on the
+left (`Append` always builds a new map), and `rest(m)` / `m[i:j]` of a MAP (the pairs are copied) — so `cp = big + {}` puts `cp` alone in a new group.
 A hazardous operation (in-place write through name `n`, or append with base `n`) can explain a
 difference only if, at some point during that input, `n`'s group had another live member. -/
 
@@ -174,17 +174,26 @@ partial def identsIn : Node → List String
   | .idx _ l i => identsIn l ++ identsIn i
   | _ => []
 
+/-- the node is known to evaluate to a MAP: a map literal, or a global the model's dump shows as `m[…]`
+(anything else, including unknown identifiers, is treated like an array: may share) -/
+def mapSide (isMap : String → Option Bool) : Node → Bool
+  | .mapLit .. => true
+  | .ident n => isMap n == some true
+  | _ => false
+
 /-- `isMap n`: the model's dump shows the global `n` bound to a map (`none` = unknown) -/
 partial def sources (a : Alias) (isMap : String → Option Bool) : Node → List String
   | .ident n => [n]
   | .arr els => els.flatMap (sources a isMap)
   | .mapLit ks vs => ks.flatMap (sources a isMap) ++ vs.flatMap (sources a isMap)
+  -- a slice of a MAP copies the pairs (BigMap.Range, repo fix f3e622e); a slice of a large ARRAY shares the backing
+  -- array; reading an element (`c[0]`, `m.k`) yields what the container holds
+  | .idx _ l (.inf "COLON" _ _) => if mapSide isMap l then [] else sources a isMap l
   | .idx _ l _ => sources a isMap l
+  -- `rest` of a MAP copies the pairs (BigMap.Rest, same fix); `rest` of a large ARRAY is a sub-slice
+  | .builtin "REST" [x] => if mapSide isMap x then [] else sources a isMap x
   | .inf "PLUS" l r =>
-    let mapSide : Node → Bool := fun x => match x with
-      | .mapLit .. => true
-      | .ident n => isMap n == some true
-      | _ => false
+    let mapSide := mapSide isMap
     -- map + map builds a new map; with an ARRAY on the left the right operand (whatever it is) becomes an element
     if mapSide l then [] else sources a isMap l ++ sources a isMap r
   | .inf _ _ _ => []
